@@ -20,12 +20,12 @@ RULE = (
     "NaN; u = assorter bound (polling) or 2/(2 - v/u_a) (comparison/ONEAudit) and equal to assertion.test.u after "
     "set_p_values; under style exactly the cards whose CVR lists the contest and whose sample number is within the "
     "threshold contribute, in order.  A second pass keeps both assertions of a three-candidate plurality contest (different "
-    "margins) and checks, after set_p_values, that each assertion's own test holds its own u.  Non-trivial = case with data at both ends 0 and u attained or a card filtered out; "
+    "margins) and checks, after set_p_values, that each assertion's own test holds its own u.  Super-majority assertions are also built by calling the constructor directly, and plurality contests also by Contest.from_cvr_list (populations of <= 3 cards, style on/off: the cards feeding the assertions).  Non-trivial = case with data at both ends 0 and u attained or a card filtered out; "
     "distinct = distinct (kind, audit type, style, multiset, threshold)"
 )
 ASSUMPTIONS = ["tolerance 1e-12*u on the range test", "non-positive margins are outside the property's quantifier: counted, not judged",
                "set_p_values is only called when the contest has at least one datum"]
-REQUIRE_VAC = ["two_assertions_with_different_bounds", "datum_equal_0", "datum_equal_u", "cards_filtered_by_threshold", "cards_filtered_by_style", "pooled_cards_in_data", "set_p_values_calls"]
+REQUIRE_VAC = ["contests_built_by_from_cvr_list", "supermajority_assertion_built_directly", "two_assertions_with_different_bounds", "datum_equal_0", "datum_equal_u", "cards_filtered_by_threshold", "cards_filtered_by_style", "pooled_cards_in_data", "set_p_values_calls"]
 PLAN = {"quick": {"full": 2, "reduced": 2}, "thorough": {"full": 2, "reduced": 3}}
 KINDS = ["plurality", "sm13", "sm12", "supermajority", "sm34", "irv_neb", "irv_nen"]
 AUDITS = [Audit.AUDIT_TYPE.POLLING, Audit.AUDIT_TYPE.CARD_COMPARISON, Audit.AUDIT_TYPE.ONEAUDIT]
@@ -126,6 +126,47 @@ def judge(kind, cards, style, audit_type, thr, feats=None, direct=False):
     return out, (d.tolist(), float(u))
 
 
+def judge_from_cvr_list(cards, style):
+    """contests built by the library's own Contest.from_cvr_list (from the tabulated CVRs and the audit's stratum), then
+    the usual preparation: under style the cards feeding an assertion are those whose CVR lists the contest, without style
+    every sampled card"""
+    cvrs, mvrs = s3.build_cards("plurality", cards)
+    if not any(c.has_contest(s3.CID) for c in cvrs):
+        return [], None
+    audit = Audit.from_dict({"strata": {"s": {"max_cards": len(cards), "use_style": style, "replacement": False}}})
+    out = []
+    try:
+        with warnings.catch_warnings(), np.errstate(all="ignore"):
+            warnings.simplefilter("ignore")
+            votes = CVR.tabulate_votes(cvrs)
+            ncards = CVR.tabulate_cards_contests(cvrs)
+            cons = Contest.from_cvr_list(audit, votes, ncards, cvrs)
+            if s3.CID not in cons:  # no vote at all in the contest: from_cvr_list has nothing to build it from
+                return [], None
+            con = cons[s3.CID]
+            Assertion.make_all_assertions(cons)
+            Assertion.set_all_margins_from_cvrs(audit, cons, cvrs)
+            con.sample_threshold = len(cards) + 1
+            for name, asn in con.assertions.items():
+                seen = []
+                orig = asn.overstatement_assorter
+
+                def rec_oa(mvr=None, cvr=None, use_style=True, _seen=seen, _orig=orig):
+                    _seen.append(cvr.id)
+                    return _orig(mvr, cvr, use_style=use_style)
+
+                asn.overstatement_assorter = rec_oa
+                d, u = asn.mvrs_to_data(mvrs, cvrs)
+                want_ids = [c.id for c in cvrs if (c.has_contest(s3.CID) or not style)]
+                if seen != want_ids or len(d) != len(want_ids):
+                    out.append((f"C06|from_cvr_list|contributing-cards|style={style}", f"contest built by Contest.from_cvr_list, style {style}: data of {name} built from {seen}, "
+                                f"expected {want_ids} (contest.use_style = {con.use_style!r})"))
+                    break
+    except Exception as e:  # noqa
+        return [(f"C06|from_cvr_list|exception|{type(e).__name__}", f"{type(e).__name__}: {str(e)[:100]}")], None
+    return out, True
+
+
 def judge_tiny_margin(kind, audit_type, margin):
     """a margin set by hand (as from a tally of a very large, very close contest): set_p_values must install exactly
     2/(2 - v/u_a) over whatever bound the test held before, and an understated card's datum equals that bound"""
@@ -219,6 +260,21 @@ def run_shard(sh, rec):
                     for key, what in judge_tiny_margin(kind, at, margin):
                         rec.violate(key, what, {"tiny": True, "kind": kind, "audit_type": at, "margin": margin})
         return
+    if sh[0] == "fromcvrs":
+        alpha = s3.alphabet("plurality", True)
+        for n in (1, 2, 3):
+            for ms in s3.multisets(len(alpha), n):
+                cards = [alpha[a] for a in ms]
+                rec.state()
+                for style in (True, False):
+                    v, ok = judge_from_cvr_list(cards, style)
+                    rec.trans()
+                    rec.evals()
+                    if ok:
+                        rec.vac("contests_built_by_from_cvr_list")
+                    for key, what in v:
+                        rec.violate(key, what, {"fromcvrs": True, "cards": [list(c) for c in cards], "style": style})
+        return
     if sh[0] == "multi":
         return run_multi(sh, rec)
     kind, n, first, reduced, last = sh
@@ -269,6 +325,7 @@ def explore(tier, seed):
             for first in range(len(s3.alphabet(fam, True))):
                 sh.append((kind, n, first, True, n == pl["reduced"]))
     sh.append(("tiny",))
+    sh.append(("fromcvrs",))
     for n in (1, 2):
         for first in range(len(s3.alphabet("plurality"))):
             sh.append(("multi", n, first))
@@ -278,6 +335,8 @@ def explore(tier, seed):
 def run_case(case):
     if case.get("tiny"):
         return judge_tiny_margin(case["kind"], case["audit_type"], case["margin"])
+    if case.get("fromcvrs"):
+        return judge_from_cvr_list([tuple(c) for c in case["cards"]], case["style"])[0]
     if case.get("multi"):
         return judge_multi([tuple(c) for c in case["cards"]], case["style"], case["audit_type"])[0]
     v = judge(case["kind"], [tuple(c) for c in case["cards"]], case["style"], case["audit_type"], case["thr"], None, bool(case.get("direct")))[0]
